@@ -6,7 +6,6 @@ import (
 	"os"
 	"path/filepath"
 	"regexp"
-	"strings"
 
 	"github.com/bmatcuk/doublestar/v4"
 	"gopkg.in/yaml.v3"
@@ -91,7 +90,7 @@ func (cfg *Config) PathConfigs(path string) []PathConfig {
 func ParseConfig(b []byte) (*Config, error) {
 	var c Config
 	if err := yaml.Unmarshal(b, &c); err != nil {
-		msg := strings.ReplaceAll(err.Error(), "\n", " ")
+		msg := oneLine(err.Error())
 		return nil, errors.New(msg)
 	}
 	// Check the patterns in sorted order so that the same pattern is reported every time when two
